@@ -50,19 +50,13 @@ Print Assumptions C02_undefined_symbol_rejected.
 Definition t (s : String.string) : text := text_of_string s.
 Local Open Scope string_scope.
 
-(* (f) the last sentence of the property is FALSE of the faithful model: a program with code before its
-   ORG is accepted, the reported origin is $1000 but the first statement is listed (and loads) at 0
-   (known finding noncontiguous_origin, replayed on the implementation on every run) *)
-Theorem C02_noncontiguous_refuted :
-  exists lines r, MProgram.assemble [] lines = Ok r /\ option_map v_int (r_origin r) = Some 4096%N /\
-                  map r_addr (r_stmts r) = [0; 4096; 4096]%N /\ r_image r = [18; 18]%N.
-Proof.
-  exists [t " NOP
+(* (f) the last sentence of the property: a program with code before its ORG is rejected (repair F45) *)
+Example C02_noncontiguous_rejected :
+  MProgram.assemble [] [t " NOP
 "; t " ORG $1000
 "; t "L NOP
-"]. eexists. split; [vm_compute; reflexivity|]. repeat split.
-Qed.
-Print Assumptions C02_noncontiguous_refuted.
+"] = Diag 2.
+Proof. vm_compute. reflexivity. Qed.
 
 (* non-vacuity: a program with forward/backward references, a PCR statement and data *)
 Example C02_nonvacuous :
